@@ -490,7 +490,10 @@ def sched_exploration(run, harness, label, args, tags, lin=True):
     """returns True if nothing relevant was found.  tags: monitor prefixes that belong to this property."""
     d = os.path.join(run.work, label)
     os.makedirs(d, exist_ok=True)
-    rc, o, e = sh([harness, "sched", "out=" + d] + args, timeout=3000)
+    if args and args[0].startswith("file="):
+        rc, o, e = sh([harness, "schedreplay", "out=" + d] + args, timeout=3000)
+    else:
+        rc, o, e = sh([harness, "sched", "out=" + d] + args, timeout=3000)
     if rc != 0:
         sig = "%s: scheduler harness crashed" % label
         path = write_replay(run, label + "_crash", {"kind": "harness-crash", "cmd": ["sched"] + args, "stderr": e[-4000:]})
